@@ -542,7 +542,8 @@ func MonC13(c *MonCtx) {
 					c.Violate("C13", "C13/collect: the replica set matching spec.template was deleted", x.Name)
 				}
 				e1 := post.EDS(ns, name)
-				if e1 != nil && e1.Status.ActiveReplicaSet == x.Name {
+				if e1 != nil && e1.Status.ActiveReplicaSet == x.Name && !hasFault(c.Out.Log) && c.Out.RR.Err == nil {
+					// (with a fault the status write that switches away may not have happened: the reference judges below)
 					c.Violate("C13", "C13/collect: the active replica set was deleted", x.Name)
 				}
 				if e.Status.ActiveReplicaSet == x.Name {
